@@ -125,6 +125,14 @@ def load_job_payload(job: Dict[str, Any], work: Path):
 
                 gens += [Dispatcher(rp.e.config.dispatcher), ChargingFleetManager(rp.e.config.dispatcher)]
         rp = runs.set_generators(rp, gens)
+    if job.get("end_override"):
+        # an interval that is not a whole number of steps: the last step is a partial one
+        from nrel.hive.model.sim_time import SimTime
+
+        cfg = rp.e.config
+        dt = int(cfg.sim.timestep_duration_seconds)
+        end = int(cfg.sim.start_time) + dt * (job["steps"] - 1) + 1 + (int(job["end_override"]) % (dt - 1) if dt > 1 else 0)
+        rp = rp._replace(e=rp.e._replace(config=cfg._replace(sim=cfg.sim._replace(end_time=SimTime.build(end)))))
     return rp
 
 
@@ -146,12 +154,13 @@ def observe_run(job: Dict[str, Any], work: Path) -> Dict[str, Any]:
             cfg = rp.e.config.sim
             start, end, dt = int(cfg.start_time), int(cfg.end_time), int(cfg.timestep_duration_seconds)
             out = LocalSimulationRunner.run(rp)
-            before = LocalSimulationRunner.step(rp)           # a fresh payload before the end time must step
-            extra["runner"] = {"k": "runner", "id": job["id"], "start": start, "end": end, "dt": dt, "steps_run": len(ob.obs) - (1 if before is not None else 0),
+            n_run = len(ob.obs)
+            # stepping the finished payload must be refused (no side effect); a payload before the end time is stepped by
+            # the run itself
+            extra["runner"] = {"k": "runner", "id": job["id"], "start": start, "end": end, "dt": dt, "steps_run": n_run,
                                "final_time": int(out.s.sim_time), "refused_beyond_end": LocalSimulationRunner.step(out) is None,
-                               "stepped_before_end": (before is not None) or start >= end}
-            if before is not None:
-                ob.obs.pop()                                   # the probe step is not part of the run
+                               "stepped_before_end": n_run > 0 or start >= end}
+            del ob.obs[n_run:]
             rp = out
         else:
             for n in split:
@@ -168,7 +177,7 @@ def worker_main() -> int:
     out = {}
     for job in spec["jobs"]:
         try:
-            out[job["id"] + "|" + job["label"]] = observe_run(job, work)
+            out[job["id"] + "|" + job["label"]] = observe_saved(job, work) if job.get("mode") == "saved" else observe_run(job, work)
         except Exception as e:
             import traceback
 
@@ -237,3 +246,153 @@ def merge(path: Path, scen_id: str, runs: List[Dict[str, Any]], prop: str, claus
                                 "labels": labels, "vals": [r["summary"] for r in runs]}, separators=(",", ":")) + "\n")
             lines += 1
     return lines
+
+
+# ---------------------------------------------------------------------------------------------
+# C16: deep fingerprints of retained states
+
+
+def deep_walk(o: Any, mutable: List[str], path: str = "", depth: int = 0) -> Any:
+    """a canonical, JSON-able copy of everything reachable from o (tags and instance ids INCLUDED: a retained state must
+    read literally the same later); mutable containers met on the way are recorded in `mutable`"""
+    import dataclasses
+    import enum
+
+    if depth > 40:
+        return "<deep>"
+    if o is None or isinstance(o, (bool, int, str)):
+        return o
+    if isinstance(o, float):
+        return repr(o)
+    if isinstance(o, enum.Enum):
+        return f"{type(o).__name__}.{o.name}"
+    try:
+        import immutables
+
+        if isinstance(o, immutables.Map):
+            return {"<Map>": [[deep_walk(k, mutable, path, depth + 1), deep_walk(v, mutable, f"{path}[{k}]", depth + 1)]
+                              for k, v in sorted(o.items(), key=lambda kv: str(kv[0]))]}
+    except ImportError:
+        pass
+    if isinstance(o, (frozenset,)):
+        return {"<frozenset>": sorted(json.dumps(deep_walk(x, mutable, path, depth + 1), sort_keys=True) for x in o)}
+    if isinstance(o, tuple):
+        if hasattr(o, "_fields"):
+            return {"<" + type(o).__name__ + ">": [[f, deep_walk(getattr(o, f), mutable, f"{path}.{f}", depth + 1)] for f in o._fields]}
+        return [deep_walk(x, mutable, f"{path}[{i}]", depth + 1) for i, x in enumerate(o)]
+    if dataclasses.is_dataclass(o) and not isinstance(o, type):
+        return {"<" + type(o).__name__ + ">": [[f.name, deep_walk(getattr(o, f.name), mutable, f"{path}.{f.name}", depth + 1)]
+                                              for f in dataclasses.fields(o)]}
+    if isinstance(o, (list, set, dict, bytearray)):
+        mutable.append(f"{path}:{type(o).__name__}")
+        if isinstance(o, dict):
+            return {"<dict>": [[str(k), deep_walk(v, mutable, f"{path}[{k}]", depth + 1)] for k, v in sorted(o.items(), key=lambda kv: str(kv[0]))]}
+        return {"<" + type(o).__name__ + ">": [deep_walk(x, mutable, path, depth + 1) for x in (sorted(o, key=str) if isinstance(o, set) else o)]}
+    if type(o).__module__.startswith("numpy"):
+        mutable.append(f"{path}:ndarray")
+        return {"<ndarray>": o.tolist() if hasattr(o, "tolist") else str(o)}
+    if hasattr(o, "hex") and type(o).__name__ == "UUID":
+        return str(o)
+    if hasattr(o, "__dict__") and type(o).__module__.startswith("nrel.hive") and not type(o).__name__.endswith("RoadNetwork"):
+        return {"<" + type(o).__name__ + ">": [[k, deep_walk(v, mutable, f"{path}.{k}", depth + 1)] for k, v in sorted(vars(o).items())]}
+    return f"<{type(o).__name__}>"
+
+
+def state_fp(sim) -> Tuple[List[List[str]], List[str]]:
+    """[[entity id, canonical text]...] of a SimulationState (everything except the road network object)"""
+    mutable: List[str] = []
+    out: List[List[str]] = []
+
+    def put(key: str, val: Any, path: str) -> None:
+        out.append([key, json.dumps(deep_walk(val, mutable, path), sort_keys=True, separators=(",", ":"))])
+
+    for name in sim._fields:
+        if name == "road_network":
+            continue
+        val = getattr(sim, name)
+        if name in ("vehicles", "stations", "bases", "requests"):
+            for k in sorted(val.keys()):
+                put(f"{name}:{k}", val[k], f"{name}[{k}]")
+            put(f"{name}:<keys>", tuple(sorted(val.keys())), name)
+        else:
+            put(name, val, name)
+    return out, sorted(set(mutable))
+
+
+def observe_saved(job: Dict[str, Any], work: Path) -> Dict[str, Any]:
+    """C16: retain states during a run, re-read them later; step / instruct the same retained state twice"""
+    import random
+
+    from nrel.hive.app import hive_cosim
+    from nrel.hive.state.simulation_state.update.step_simulation_ops import apply_instructions
+    from nrel.hive.util import verif_hooks
+
+    rp = load_job_payload(job, work)
+    rng = random.Random(job["seed"] if "seed" in job else 7)
+    every, later = job.get("every", 5), job.get("later", 8)
+    saved: List[Dict[str, Any]] = []
+    lines: List[Dict[str, Any]] = []
+    mutable_seen: set = set()
+    reports: List[str] = []
+
+    def sink(event, **f):
+        if event == "report":
+            reports.append(canon_report(f["report"]))
+
+    def take_reports() -> List[str]:
+        r = sorted(reports)
+        reports.clear()
+        return r
+
+    verif_hooks.install(sink)
+    try:
+        for k in range(job["steps"]):
+            if k % every == 0:
+                fp, mut = state_fp(rp.s)
+                mutable_seen.update(mut)
+                saved.append({"k": k, "rp": rp, "fp": fp})
+                # the same retained state stepped twice with the same (deterministic) controller
+                take_reports()
+                s1, _ = rp.u.step_update.update(rp.s, rp.e)
+                r1 = take_reports()
+                s2, _ = rp.u.step_update.update(rp.s, rp.e)
+                r2 = take_reports()
+                lines.append({"k": "twice", "prop": "C16", "clause": "same_result_twice", "scen": job["id"], "i": k, "labels": ["first", "second"],
+                              "vals": [{"state": [[a, b] for a, b in sorted(full_state(s1, rp.e).items())], "reports": r1},
+                                       {"state": [[a, b] for a, b in sorted(full_state(s2, rp.e).items())], "reports": r2}]})
+                # the same instructions applied twice to the same retained state
+                gens = rp.u.step_update.ordered_instruction_generators
+                instrs: List[Any] = []
+                for g in gens:
+                    instrs.extend(g.generate_instructions(rp.s, rp.e)[1])
+                seen_v, uniq = set(), []
+                for i in instrs:
+                    if i.vehicle_id not in seen_v:
+                        seen_v.add(i.vehicle_id)
+                        uniq.append(i)
+                a1 = apply_instructions(rp.s, rp.e, tuple(uniq))
+                a2 = apply_instructions(rp.s, rp.e, tuple(uniq))
+                take_reports()
+                lines.append({"k": "instruct_twice", "prop": "C16", "clause": "same_result_twice", "scen": job["id"], "i": k,
+                              "labels": ["first", "second"],
+                              "vals": [{"state": [[a, b] for a, b in sorted(full_state(a1, rp.e).items())], "reports": []},
+                                       {"state": [[a, b] for a, b in sorted(full_state(a2, rp.e).items())], "reports": []}]})
+                # ... and none of that may have touched the retained state
+                fp_now, _ = state_fp(rp.s)
+                lines.append({"k": "reread_after_branching", "prop": "C16", "clause": "saved_state_unchanged", "scen": job["id"], "i": k,
+                              "labels": ["when_saved", "after_stepping_it"], "vals": [{"state": fp, "reports": []}, {"state": fp_now, "reports": []}]})
+            rp = hive_cosim.crank(rp, 1).runner_payload
+            take_reports()
+            for sv in saved:
+                if k + 1 - sv["k"] in (1, later):
+                    fp_now, _ = state_fp(sv["rp"].s)
+                    lines.append({"k": "reread", "prop": "C16", "clause": "saved_state_unchanged", "scen": job["id"], "i": sv["k"],
+                                  "labels": ["when_saved", f"after_{k + 1 - sv['k']}_steps"],
+                                  "vals": [{"state": sv["fp"], "reports": []}, {"state": fp_now, "reports": []}]})
+        for sv in saved:
+            fp_now, _ = state_fp(sv["rp"].s)
+            lines.append({"k": "reread_at_end", "prop": "C16", "clause": "saved_state_unchanged", "scen": job["id"], "i": sv["k"],
+                          "labels": ["when_saved", "at_end"], "vals": [{"state": sv["fp"], "reports": []}, {"state": fp_now, "reports": []}]})
+    finally:
+        verif_hooks.install(None)
+    return {"id": job["id"], "label": job["label"], "lines": lines, "mutable": sorted(mutable_seen), "saved": len(saved)}
